@@ -52,6 +52,7 @@ pub fn run(ctx: &mut Ctx, suite: &str) {
         "c13p" => c12::run_permit(ctx),
         "c13w" => c12::run_c13w(ctx),
         "c13f" => c12::run_c13f(ctx),
+        "c12s" => c12::run_streams(ctx),
         "c01k" => c12::run_c01k(ctx),
         "c13b" => c12::run_shutdown_busy(ctx),
         "c12i" => c12::run_emfile_idle(ctx),
@@ -104,6 +105,7 @@ pub fn replay(ctx: &mut Ctx, tag: &str, args: &[&str]) {
         "c13p" => c12::case_permit(ctx, args[0], args[1]),
         "c13b" => c12::case_shutdown_busy(ctx, args[0]),
         "c12i" => c12::case_emfile_idle(ctx, args[0]),
+        "c12s" => c12::case_streams(ctx, args[0]),
         "c13" => c12::case_shutdown(ctx, args[0], args[1], args[2]),
         "c08s" => c12::case_stall(ctx, args[0]),
         "c19s" => c19::case_set(ctx, args[0], args[1]),
